@@ -78,6 +78,15 @@ func main() {
 				hist.GenOps(r, &c, ops, r.IntN(3), true)
 			}
 			c.Tight = i%4 == 2
+			if i%5 == 1 {
+				// custom verbs next to the standard ones they resemble (same length, same first letter, same prefix)
+				c.Methods = []string{"GET", "GIT", "POST", "PUSH", "DELETE", "DEPLOY", "PUT", "PUB"}
+				for j := range c.Ops {
+					if c.Ops[j].Method != "" && c.Ops[j].Bad == "" {
+						c.Ops[j].Method = c.Methods[(j*7+len(c.Ops[j].Pattern))%len(c.Methods)]
+					}
+				}
+			}
 			check(run, c)
 		}
 	})
